@@ -59,7 +59,7 @@ def run(R):
     ]
     R.assume += [
         "PARTIAL: panics inside cosmos-sdk / CometBFT / IAVL / the Go runtime (out of memory) are outside the model; DeliverTx panics recovered by baseapp (failed tx) are not violations",
-        "models cover: gov quorum (processProposal/processPoll), spending EndBlocker, Withdraw/Distribution enactment, ApplyProposal/dry-run filter, staking validator-set updates, fee-collector payouts and the per-denom reward credit, UBI mint, upgrade halt; collectives, layer2, basket, slashing/evidence, recovery and the reward path are driven by dedicated ABCI histories (every vote pattern run past the enactment end, dApp bootstrap, slash proposal, address rotation, staking rewards over many blocks) and the site audit, without a Coq model of their own",
+        "models cover: gov quorum (processProposal/processPoll), spending EndBlocker, Withdraw/Distribution enactment, ApplyProposal/dry-run filter, staking validator-set updates, fee-collector payouts and the per-denom reward credit, UBI mint, upgrade halt; collectives, layer2, basket, slashing/evidence, recovery and the reward path are driven by dedicated ABCI histories (every vote pattern run past the enactment end, dApp bootstrap, slash proposal, address rotation, staking and recovery-token rewards over many blocks, the upgrade plan with validators in every status and vote, network properties driven to 0 / max by proposals between blocks, genesis export + re-import followed by the hooks, block times with nanosecond parts) and the site audit, without a Coq model of their own",
         "amounts < 2^190, weights < 2^150, voters < 2^64 (the 315-bit Dec overflow is excluded by these bounds)",
         "the harness delivers commit votes for the genesis validators only; validator-set consistency with CometBFT is C05's",
     ]
